@@ -1,4 +1,5 @@
 #include "multi_buffergroup.h"
+#include "verif_hooks.h"
 #include <string>
 #include <iostream>
 
@@ -23,9 +24,12 @@ loadstate_t iobuffer::load_buffer(FILE *fin, bool ispadding)
 {
   u32_t load = fread(b, 1, sum, fin);
   bool readover = feof(fin);
+  WENCRY_VERIF_POINT(WV_BUF_LOAD_STEP, this, 0);
   tail = load & 0xf;
   total = load >> 4;
+  WENCRY_VERIF_POINT(WV_BUF_LOAD_STEP, this, 1);
   now = 0;
+  WENCRY_VERIF_POINT(WV_BUF_LOAD_STEP, this, 2);
   if (ispadding && (load != sum))
   {
     u8_t padding = 16 - tail;
@@ -47,6 +51,7 @@ ispadding:是否填充
 */
 void iobuffer::export_buffer(FILE *fout, bool ispadding)
 {
+  WENCRY_VERIF_POINT(WV_BUF_EXPORT_STEP, this, 0);
   if (isfinal)
   {
     u8_t padding = ispadding ? 0 : b[now - 1][15];
@@ -160,7 +165,10 @@ bool buffergroup::turn_iter()
   if (!bufferctrl::haslive())
     return false;
   do
+  {
     turn = (turn + 1) % size;
+    WENCRY_VERIF_POINT(WV_IO_STATE, turn, 1);
+  }
   while (ctrl[turn].cmpstate(INV));
   return true;
 };
@@ -171,13 +179,18 @@ return:表项地址，若缓冲区已经读取完毕返回NULL
 */
 u8_t *buffergroup::require_buffer_entry(const u8_t id)
 {
+  WENCRY_VERIF_POINT(WV_W_GET, id, 0);
   u8_t *result = buflst[id].get_entry();
   if (result == NULL)
   {
     ctrl[id].set_update();
     ctrl[id].wait_ready();
+    WENCRY_VERIF_POINT(WV_W_STATE, id, 0);
     if (ctrl[id].cmpstate(READY))
+    {
+      WENCRY_VERIF_POINT(WV_W_GET, id, 1);
       result = buflst[id].get_entry();
+    }
   }
   return result;
 }
@@ -188,13 +201,20 @@ printload:过程打印函数
 void buffergroup::buffer_update(const std::function<void(std::string, size_t)> &printload)
 {
   loadstate_t loadstate = NODATA;
+  WENCRY_VERIF_POINT(WV_IO_STATE, turn, 0);
   if (ctrl[turn].cmpstate(UPDATING))
   {
+    WENCRY_VERIF_POINT(WV_IO_EXPORT_BEGIN, turn, 0);
     buflst[turn].export_buffer(fout, ispadding);
     printload("Tid " + std::to_string(turn), buflst[turn].get_size());
+    WENCRY_VERIF_POINT(WV_IO_EXPORT_END, turn, 0);
   }
   if (!over)
+  {
+    WENCRY_VERIF_POINT(WV_IO_LOAD_BEGIN, turn, 0);
     loadstate = buflst[turn].load_buffer(fin, ispadding);
+    WENCRY_VERIF_POINT(WV_IO_LOAD_END, turn, loadstate);
+  }
   over = loadstate != FULL;
   ctrl[turn].set_ready(loadstate != NODATA);
 }
